@@ -132,7 +132,7 @@ pub fn directed_workloads(thorough: bool) -> Vec<Workload> {
         }
         txs.push(tx(ops));
         txs.push(tx(vec![Op::TxGet { k: K::lit(b"first"), how: How::Slice }, Op::Delete { h: 0, k: K::lit(b"k000") }, put(0, "z".into(), 999, len)]));
-        v.push(Workload { history: History { pagesize: ps, num_pages: 4, strict: false, populate: false, txs, origin: "directed".into() }, label: format!("minimum-size file, page size {}, first commits of {} x {} B", ps, n, len), base: None });
+        v.push(Workload { history: History { pagesize: ps, num_pages: 4, strict: false, populate: false, txs, origin: "directed".into(), pins: vec![] }, label: format!("minimum-size file, page size {}, first commits of {} x {} B", ps, n, len), base: None });
     }
     // (b) free lists of several pages, rewritten by small commits and by commits that shrink them
     for index in if thorough { vec![0usize, 1, 3] } else { vec![0usize] } {
@@ -167,7 +167,7 @@ pub fn directed_workloads(thorough: bool) -> Vec<Workload> {
             txs.push(tx(ops));
             txs.push(tx(vec![Op::TxGet { k: K::lit(b"g"), how: How::Slice }, put(0, "seed".into(), 50 + r as u64, 100 + r)]));
         }
-        v.push(Workload { history: History { pagesize: ps, num_pages: 4, strict: false, populate: false, txs, origin: "directed".into() }, label: "repeated file extension at page size 65536 (2.6 MiB per commit)".into(), base: None });
+        v.push(Workload { history: History { pagesize: ps, num_pages: 4, strict: false, populate: false, txs, origin: "directed".into(), pins: vec![] }, label: "repeated file extension at page size 65536 (2.6 MiB per commit)".into(), base: None });
     }
     // (d) same at 16 KiB pages with many small values (many pages per commit, growth every few commits)
     {
@@ -181,7 +181,7 @@ pub fn directed_workloads(thorough: bool) -> Vec<Workload> {
             }
             txs.push(tx(ops));
         }
-        v.push(Workload { history: History { pagesize: ps, num_pages: 4, strict: false, populate: false, txs, origin: "directed".into() }, label: "repeated file extension at page size 16384 (3 MiB per commit in 60 values)".into(), base: None });
+        v.push(Workload { history: History { pagesize: ps, num_pages: 4, strict: false, populate: false, txs, origin: "directed".into(), pins: vec![] }, label: "repeated file extension at page size 16384 (3 MiB per commit in 60 values)".into(), base: None });
     }
     // (e) further commits on files written by the PINNED release (and their legacy-header rewrites): the
     // first commit by the current code meets a header pair it did not write itself
@@ -190,7 +190,7 @@ pub fn directed_workloads(thorough: bool) -> Vec<Workload> {
             continue;
         }
         let txs = crate::c15::follow_ups(if thorough { 10 } else { 5 }, ps);
-        v.push(Workload { history: History { pagesize: ps, num_pages: 32, strict: false, populate: false, txs, origin: "directed".into() }, label: format!("further commits on {} (written by the pinned release)", name), base: Some(name.to_string()) });
+        v.push(Workload { history: History { pagesize: ps, num_pages: 32, strict: false, populate: false, txs, origin: "directed".into(), pins: vec![] }, label: format!("further commits on {} (written by the pinned release)", name), base: Some(name.to_string()) });
     }
     v
 }
